@@ -186,10 +186,13 @@ def filter_case(case):
     res = dict(id=case['id'], failures=[], dist={})
     def count(k): res['dist'][k] = res['dist'].get(k, 0) + 1
     try:
-        repo, marks = build_repo(case, root)
+        bare_repo = case['mode'] == 'rules' and case['id'] % 7 == 6
+        repo, marks = build_repo(case, root, bare=bare_repo)
+        if bare_repo:
+            count('bare-repository')
         aux = write_aux(case, root, marks)
         extra_cli = []
-        if case['mode'] == 'rules' and head_of(repo) and head_of(repo) in refs(repo):
+        if case['mode'] == 'rules' and not bare_repo and head_of(repo) and head_of(repo) in refs(repo):
             # the places the quantifier of C07 names: a stash, a commit that survives only in a reflog, a foreign
             # remote-tracking ref, loose objects; default cleanup and --sensitive
             lits = [l.split(b'==>')[0] for l in unhex(case.get('blob_rules_hex') or '.').split(b'\n')
@@ -235,7 +238,18 @@ def filter_case(case):
             repo = tgt
             before_refs, before_head = {}, None
         else:
-            rc, out, err, dt = run_tool(repo, ['--force'] + extra_cli + cli)
+            tee_env, tee_path = None, os.path.join(root, 'imported.stream')
+            if case['id'] % 2 == 1:
+                # record what the importer is really fed: every stream-level claim is about fast-export.filtered, so the two must agree
+                tee_env = dict(GIT_ENV, PATH=make_shim(root) + os.pathsep + GIT_ENV.get('PATH', os.environ.get('PATH', '')), FRRS_SHIM_MODE='plain',
+                               FRRS_SHIM_TEE=tee_path, FRRS_SHIM_IN='65536', FRRS_SHIM_OUT='65536')
+            rc, out, err, dt = run_tool(repo, ['--force'] + extra_cli + cli, env=tee_env)
+            if tee_env and rc == 0 and os.path.exists(tee_path):
+                gd0 = os.path.join(repo, 'filter-repo') if bare_repo else os.path.join(repo, '.git', 'filter-repo')
+                ff = os.path.join(gd0, 'fast-export.filtered')
+                if os.path.exists(ff) and _drop_get_mark(open(tee_path, 'rb').read()) != open(ff, 'rb').read():
+                    res['failures'].append(('ALL', f'the bytes fed to git fast-import differ from fast-export.filtered of the same run (options {extra_cli + cli}): the stream-level claims are about the file'))
+                count('imported-bytes-equal-the-filtered-file-checked')
         res['tool_rc'] = rc
         # guards of the claims, from the model
         opts = case['model_opts']
@@ -251,7 +265,7 @@ def filter_case(case):
             return res
         count('tool-ok')
         s_after = export(repo)
-        dd = os.path.join(repo, '.git', 'filter-repo')
+        dd = os.path.join(repo, 'filter-repo') if bare_repo and not separate else os.path.join(repo, '.git', 'filter-repo')
         rd = lambda n: open(os.path.join(dd, n), 'rb').read() if os.path.exists(os.path.join(dd, n)) else b''
         cmap, rmap = rd('commit-map'), rd('ref-map')
         ans = model().ask(f'oracle-e2e {opts} {enhex(s_before)} {enhex(s_after)} {enhex(cmap)} {enhex(rmap)}')
@@ -273,7 +287,7 @@ def filter_case(case):
                 if t.stdout.strip() != b'commit':
                     res['failures'].append(('C09', f'commit-map maps {old.decode()} to {new.decode()} which is not an existing commit'))
         # C14: HEAD names a live branch, index and work tree match it
-        if guards == 'ok' and before_head and before_head in before_refs:
+        if guards == 'ok' and before_head and before_head in before_refs and not bare_repo:
             want = rename_branch(cli, before_head)
             h = head_of(repo)
             if h != want or h not in after_refs:
@@ -314,6 +328,17 @@ def filter_case(case):
         # a second, neutral run in the same repository: the maps of the first run are lying around (C09), nothing may move (C08)
         if case['mode'] != 'rules' and case['id'] % 2 == 0 and after_refs and not separate:
             nopts = 'inv=0;paths=-;globs=-;ren=-;tagren=none;brren=none;pe=never;pd=never;noff=0;marks=0'
+            tips2 = [v[0] for kk, v in sorted(after_refs.items()) if v[1] == 'commit']
+            if tips2 and case['id'] % 4 == 0:
+                # a commit whose message cites earlier commit ids, abbreviated and in upper case: the maps of the first run make
+                # the second run look such citations up
+                t = tips2[0]
+                msg = f'cites {t[:10].upper()} and {t[:8]} and {t.upper()}\n'.encode()
+                c = git(repo, 'commit-tree', t + '^{tree}', '-p', t, input=msg).decode().strip()
+                git(repo, 'update-ref', 'refs/heads/zz-cites-earlier-ids', c)
+                s_after = export(repo)
+                after_refs = refs(repo)
+                count('second-run-with-cited-ids')
             s_before2 = s_after
             refs2, head2 = after_refs, head_of(repo)
             rc2, _, err2, _ = run_tool(repo, ['--force', '--prune-empty', 'never', '--prune-degenerate', 'never'])
@@ -328,8 +353,11 @@ def filter_case(case):
             if ans.startswith('FAIL'):
                 for part in ans[5:].split(' || '):
                     res['failures'].append((part.split(':')[0].strip(), '(second run in the same repository) ' + part))
-            if model().ask(f'guards {nopts} {enhex(s_before2)}') == 'ok' and (refs(repo) != refs2 or head_of(repo) != head2):
-                res['failures'].append(('C08', '(second run in the same repository) a neutral run changed refs or HEAD'))
+            # HEAD is compared only when it named an existing branch before (a dangling HEAD is re-pointed at a live branch by design, C14)
+            if model().ask(f'guards {nopts} {enhex(s_before2)}') == 'ok' and (refs(repo) != refs2 or (head2 in refs2 and head_of(repo) != head2)):
+                r3 = refs(repo)
+                diff = [(n, refs2.get(n), r3.get(n)) for n in sorted(set(refs2) | set(r3)) if refs2.get(n) != r3.get(n)][:3]
+                res['failures'].append(('C08', f'(second run in the same repository) a neutral run changed refs or HEAD: {diff}, HEAD {head2} -> {head_of(repo)}'))
         return res
     except Exception as e:
         res['error'] = repr(e)[:400]
@@ -580,12 +608,19 @@ def backup_case(case):
             open(expect[1] + '.lock', 'w').write('stale lock')
             expect = ('unwritable', None)
             count('stale-bundle-and-failing-create')
+        tool_env = None
+        if k % 8 == 5 and refs(repo) and expect[0] != 'unwritable':
+            # `git bundle create` dies from a signal (OOM killer, operator): no exit code at all
+            tool_env = dict(GIT_ENV, PATH=make_shim(root) + os.pathsep + GIT_ENV.get('PATH', os.environ.get('PATH', '')), FRRS_SHIM_MODE='killbundle',
+                            FRRS_SHIM_IN='65536', FRRS_SHIM_OUT='65536')
+            expect = ('unwritable', None)
+            count('bundle-command-killed-by-signal')
         before_refs = refs(repo)
         before_head = git(repo, 'rev-parse', 'HEAD', check=False).decode().strip()
         before_snapshot = full_snapshot(repo) if expect[0] == 'unwritable' else None
         all_objects = set(l.split(' ')[0] for l in git(repo, 'cat-file', '--batch-all-objects', '--batch-check').decode().splitlines())
         reachable = set(x.split(' ')[0] for x in git(repo, 'rev-list', '--objects', '--all').decode('latin1').splitlines()) if before_refs else set()
-        rc, out, err, dt = run_tool(repo, ['--force'] + bargs + cli)
+        rc, out, err, dt = run_tool(repo, ['--force'] + bargs + cli, env=tool_env)
         if expect[0] == 'unwritable':
             after = full_snapshot(repo)
             if rc == 0:
@@ -708,6 +743,9 @@ def sanity_case(case):
         applied = [v for i, v in enumerate(VIOLATIONS) if case['mask'] >> i & 1]
         if case.get('ignorecase'):
             sh(repo, 'git config core.ignorecase true; git config core.precomposeunicode true')
+        if case.get('quietstatus'):
+            # configuration that changes what porcelain commands report, not what the repository holds
+            sh(repo, 'git config status.showUntrackedFiles no; git config status.relativePaths false; git config diff.ignoreSubmodules all')
         for v in applied:
             if v == 'stash' and not bare: sh(repo, 'echo s >> b; git stash -q')
         for v in applied:
@@ -753,6 +791,12 @@ def sanity_case(case):
                 gd_changed = [k for k in set(before['gitdir']) | set(after['gitdir']) if before['gitdir'].get(k) != after['gitdir'].get(k)]
                 if gd_changed:
                     res['failures'].append(('C12', f'the refused run changed files under .git: {gd_changed[:4]}'))
+        # a refused run must not make the next, identical attempt succeed (state left behind by the refusal)
+        if rc != 0 and case['id'] % 3 == 0:
+            rc_again, _, err_again, _ = run_tool(repo, ['--path', 'a'])
+            if rc_again == 0:
+                res['failures'].append(('C12', f'violations {applied} (bare={bare}): refused at the first attempt, accepted when the identical command was repeated'))
+            count('second-attempt-checked')
         # --force bypasses
         if rc != 0 and case['id'] % 8 == 0:
             rc2, _, _, _ = run_tool(repo, ['--force', '--path', 'a'])
@@ -1125,7 +1169,8 @@ def detect_case(case):
                 body = body + b'pad line\n' * (2 * 1024 * 1024 // 9 + 10)
             if mode == 'nonascii':
                 body = ('é' * (len(body))).encode() + body
-            ok = mode == 'text' or (mode == 'nonascii' and m.ask('looksbinary ' + enhex(body)) == '0')
+            # guard N10: a blob the binary heuristic rejects is not scanned (short texts with a few accented filler words can hit it)
+            ok = mode in ('text', 'nonascii') and m.ask('looksbinary ' + enhex(body)) == '0'
             for f, v in toks:
                 planted.append((f, v.encode(), where, ok))
             return _blob(repo, body)
@@ -1261,6 +1306,10 @@ if [[ " $* " == *" fast-import "* ]] && { [ "$MODE" = cutimport ] || [ "$MODE" =
   # forwards every chunk at once (head -c would hold request lines back in its stdio buffer) and logs what happened
   if [ "$MODE" = cutimport ]; then exec "$R" "$@" < <(python3 "$(dirname "$0")/relay.py" "$FRRS_SHIM_CUT")
   else exec "$R" "$@" < <(python3 "$(dirname "$0")/relay.py" "$FRRS_SHIM_CUT" poison); fi
+fi
+if [[ " $* " == *" bundle "* ]] && [ "$MODE" = killbundle ]; then
+  [ -n "$FRRS_SHIM_LOG" ] && echo "FAULT bundle killed by a signal" >> "$FRRS_SHIM_LOG"
+  kill -9 $$                                        # the backup command dies from a signal (no exit code)
 fi
 if [[ " $* " == *" fast-import "* ]] && [ -n "$FRRS_SHIM_TEE" ]; then
   exec "$R" "$@" < <(tee "$FRRS_SHIM_TEE")          # what the importer is really fed (C11)
@@ -1578,8 +1627,20 @@ def fault_case(case):
                 res['error'] = 'preparatory run failed: ' + err0.decode('utf-8', 'replace')[-200:]
                 return res
             count('earlier-run-left-its-maps')
-        total = len(export(repo))
         mode = ['cutimport', 'poisonimport', 'cutexport'][k % 3]
+        opts = [[], ['--path-rename', 'd2/:moved/'], ['--branch-rename', 'b:br-'], ['--tag-rename', 'v:rel-'], ['--path', 'd3/', '--invert-paths'],
+                ['--branch-rename', 'rel:REL', '--path-rename', 'd1/:x/']][rnd.randrange(6)]
+        total = len(export(repo))
+        if mode != 'cutexport':
+            # offsets into what the tool sends to the importer: measure that stream with a dry run on a copy (it is shorter than
+            # the export: optional blank lines are dropped), so that the fault always lands before the final `done`
+            probe = os.path.join(root, 'probe')
+            shutil.copytree(repo, probe, symlinks=True)
+            rcp, _, _, _ = run_tool(probe, ['--dry-run', '--force'] + opts)
+            fp = os.path.join(probe, '.git', 'filter-repo', 'fast-export.filtered')
+            if rcp == 0 and os.path.exists(fp):
+                total = min(total, os.path.getsize(fp))
+            shutil.rmtree(probe, ignore_errors=True)
         cut = rnd.choice([0, 1, 13, 65536, 65537, total - 6, total // 2]) if rnd.random() < 0.3 else rnd.randrange(0, max(1, total - 5))
         if k % 20 in (0, 1, 2):
             cut = 0            # nothing at all reaches the child (every mode gets this boundary in every tier)
@@ -1588,8 +1649,6 @@ def fault_case(case):
             # an importer that is fed nothing exits 0 (the empty stream is valid): the tool can only notice through the
             # broken pipe, which it is sure to hit only when the stream exceeds the pipe buffer
             cut = 1
-        opts = [[], ['--path-rename', 'd2/:moved/'], ['--branch-rename', 'b:br-'], ['--tag-rename', 'v:rel-'], ['--path', 'd3/', '--invert-paths'],
-                ['--branch-rename', 'rel:REL', '--path-rename', 'd1/:x/']][rnd.randrange(6)]
         env = perturbed_env(root, k, mode)
         env['FRRS_SHIM_CUT'] = str(cut)
         env['FRRS_SHIM_RC'] = str(rnd.choice([1, 1, 0, 141]))
